@@ -1,0 +1,263 @@
+//go:build verif
+
+// Buffer-pool sanitizer for the external verification harness (/verif, property C15).
+// Compiled only with -tags verif.  bufferPool.Get/Put call verifPoolGet/verifPoolPut; with the
+// tag off these are the empty functions of verif_pool_off.go.
+//
+// The sanitizer is the state machine  fresh --get--> owned --put--> free --get--> owned ...
+// per buffer (identified by the address of its backing array):
+//   - Put poisons the full capacity with VerifPoison and pins the buffer,
+//   - Get of a free buffer verifies the poison (a changed byte = write after recycle),
+//   - Put of a free buffer = double recycle, Put of an unknown buffer = foreign recycle,
+//   - Get of an owned buffer = the pool handed one buffer to two owners,
+//   - VerifPoolUse (called by the harness where it sees a buffer in use, e.g. in WriteTo)
+//     on a free buffer = use after recycle.
+// Findings are collected as strings "<kind>: <detail>", never panics.
+package kcp
+
+import (
+	"fmt"
+	"path/filepath"
+	"runtime"
+	"sync"
+	"unsafe"
+	"weak"
+)
+
+// VerifPoison is the byte written over every recycled buffer.  Oracles look for long runs of
+// it in datagrams on the wire and in Read output (= read after recycle).
+const VerifPoison byte = 0xDB
+
+// VerifPoolEvent is one entry of the optional event log.
+type VerifPoolEvent struct {
+	Kind    byte   // 'g' get, 'p' put, 'u' use
+	ID      int    // canonical buffer id: order of first appearance since VerifPoolReset
+	Verdict string // "" = accepted, otherwise the report kind without the "pool-" prefix
+}
+
+type verifBuf struct {
+	id   int                // -1: known from before the last reset, no canonical id yet
+	free bool               // false = owned by a caller of Get
+	pin  []byte             // strong reference while free (sync.Pool may drop it at a GC)
+	w    weak.Pointer[byte] // while owned: a buffer abandoned by its owner can be collected
+	site string             // where it was last got / put
+}
+
+var verifPool = struct {
+	mu         sync.Mutex
+	bufs       map[uintptr]*verifBuf
+	nextID     int
+	gets, puts int
+	reports    []string
+	logOn      bool
+	log        []VerifPoolEvent
+}{bufs: map[uintptr]*verifBuf{}}
+
+const verifPoolMaxTracked = 1 << 15
+
+func verifSite(skip int) string {
+	_, file, line, ok := runtime.Caller(skip)
+	if !ok {
+		return "?"
+	}
+	return fmt.Sprintf("%s:%d", filepath.Base(file), line)
+}
+
+func verifPoolReport(kind, detail string) {
+	if len(verifPool.reports) < 1000 {
+		verifPool.reports = append(verifPool.reports, "pool-"+kind+": "+detail)
+	}
+}
+
+// caller holds verifPool.mu
+func verifPoolEvent(kind byte, b *verifBuf, verdict string) {
+	if verifPool.logOn {
+		verifPool.log = append(verifPool.log, VerifPoolEvent{kind, b.id, verdict})
+	}
+}
+
+// assigns the canonical id at the first event after a reset; a buffer carried over a reset in
+// state owned enters the log with a synthetic get.
+func verifPoolTouch(b *verifBuf) {
+	if b.id < 0 {
+		b.id = verifPool.nextID
+		verifPool.nextID++
+		if !b.free {
+			verifPoolEvent('g', b, "")
+		}
+	}
+}
+
+func verifPoisonIntact(p []byte) (off int, ok bool) {
+	for i, c := range p {
+		if c != VerifPoison {
+			return i, false
+		}
+	}
+	return 0, true
+}
+
+func verifPoolGet(buf []byte) {
+	base := unsafe.SliceData(buf)
+	key := uintptr(unsafe.Pointer(base))
+	site := verifSite(3)
+	verifPool.mu.Lock()
+	defer verifPool.mu.Unlock()
+	verifPool.gets++
+	b := verifPool.bufs[key]
+	if b != nil && !b.free && b.w.Value() == nil {
+		b = nil // the previous owner dropped it, it was collected and the address is reused
+	}
+	switch {
+	case b == nil: // fresh from sync.Pool.New (or forgotten by a reset)
+		b = &verifBuf{id: verifPool.nextID, site: site, w: weak.Make(base)}
+		verifPool.nextID++
+		verifPool.bufs[key] = b
+		verifPoolEvent('g', b, "")
+	case b.free:
+		verifPoolTouch(b)
+		verdict := ""
+		if off, ok := verifPoisonIntact(b.pin); !ok {
+			verdict = "write-after-put"
+			verifPoolReport(verdict, fmt.Sprintf("buffer #%d recycled at %s was written at offset %d (byte %#02x) before being handed out again at %s",
+				b.id, b.site, off, b.pin[off], site))
+		}
+		b.free, b.pin, b.w, b.site = false, nil, weak.Make(base), site
+		verifPoolEvent('g', b, verdict)
+	default: // owned and alive
+		verifPoolTouch(b)
+		verifPoolReport("alias", fmt.Sprintf("buffer #%d handed out at %s while still owned since %s", b.id, site, b.site))
+		verifPoolEvent('g', b, "alias")
+	}
+}
+
+func verifPoolPut(buf []byte) {
+	full := buf[:cap(buf)]
+	base := unsafe.SliceData(full)
+	key := uintptr(unsafe.Pointer(base))
+	site := verifSite(3)
+	verifPool.mu.Lock()
+	defer verifPool.mu.Unlock()
+	verifPool.puts++
+	b := verifPool.bufs[key]
+	if b != nil && !b.free && b.w.Value() == nil {
+		b = nil
+	}
+	switch {
+	case b == nil:
+		b = &verifBuf{id: verifPool.nextID, free: true, site: site}
+		verifPool.nextID++
+		verifPool.bufs[key] = b
+		verifPoolReport("foreign-put", fmt.Sprintf("buffer #%d recycled at %s did not come from the pool", b.id, site))
+		verifPoolEvent('p', b, "foreign-put")
+	case b.free:
+		verifPoolTouch(b)
+		verifPoolReport("double-put", fmt.Sprintf("buffer #%d recycled at %s was already recycled at %s", b.id, site, b.site))
+		verifPoolEvent('p', b, "double-put")
+	default:
+		verifPoolTouch(b)
+		b.free, b.site = true, site
+		verifPoolEvent('p', b, "")
+	}
+	for i := range full {
+		full[i] = VerifPoison
+	}
+	b.pin = full
+	if len(verifPool.bufs) > verifPoolMaxTracked {
+		verifPoolSweep(true)
+	}
+}
+
+// verifies the poison of every free buffer; with drop, forgets them (bounds memory).
+// caller holds verifPool.mu
+func verifPoolSweep(drop bool) {
+	for key, b := range verifPool.bufs {
+		if !b.free {
+			if b.w.Value() == nil {
+				delete(verifPool.bufs, key)
+			}
+			continue
+		}
+		if off, ok := verifPoisonIntact(b.pin); !ok {
+			verifPoolReport("write-after-put", fmt.Sprintf("buffer #%d recycled at %s was written at offset %d (byte %#02x) while in the pool",
+				b.id, b.site, off, b.pin[off]))
+			for i := range b.pin {
+				b.pin[i] = VerifPoison
+			}
+		}
+		if drop {
+			delete(verifPool.bufs, key)
+		}
+	}
+}
+
+// VerifPoolUse tells the sanitizer that buf (a slice starting at the start of its backing
+// array) is being read or written now.  Unknown buffers are ignored.  Returns false if the
+// buffer is in the pool (use after recycle; also recorded as a report).
+func VerifPoolUse(buf []byte) bool {
+	if cap(buf) == 0 {
+		return true
+	}
+	key := uintptr(unsafe.Pointer(unsafe.SliceData(buf[:1])))
+	verifPool.mu.Lock()
+	defer verifPool.mu.Unlock()
+	b := verifPool.bufs[key]
+	if b == nil || (!b.free && b.w.Value() == nil) {
+		return true
+	}
+	verifPoolTouch(b)
+	if b.free {
+		verifPoolReport("use-after-put", fmt.Sprintf("buffer #%d used after it was recycled at %s", b.id, b.site))
+		verifPoolEvent('u', b, "use-after-put")
+		return false
+	}
+	verifPoolEvent('u', b, "")
+	return true
+}
+
+// VerifPoolReset forgets reports, counters, the event log and every free buffer; buffers still
+// owned stay known (so that their later Put is not foreign).  Call at quiescent points.
+func VerifPoolReset() {
+	verifPool.mu.Lock()
+	defer verifPool.mu.Unlock()
+	verifPoolSweep(true)
+	for _, b := range verifPool.bufs {
+		b.id = -1
+	}
+	verifPool.nextID, verifPool.gets, verifPool.puts = 0, 0, 0
+	verifPool.reports, verifPool.log = nil, nil
+}
+
+// VerifPoolReports verifies the poison of all buffers currently recycled and returns every
+// finding since the last reset ("pool-<kind>: <detail>").
+func VerifPoolReports() []string {
+	verifPool.mu.Lock()
+	defer verifPool.mu.Unlock()
+	verifPoolSweep(false)
+	return append([]string(nil), verifPool.reports...)
+}
+
+// VerifPoolCounts returns the number of Get and (accepted-capacity) Put calls since the last reset.
+func VerifPoolCounts() (gets, puts int) {
+	verifPool.mu.Lock()
+	defer verifPool.mu.Unlock()
+	return verifPool.gets, verifPool.puts
+}
+
+// VerifPoolLog switches the event log on or off.
+func VerifPoolLog(on bool) {
+	verifPool.mu.Lock()
+	verifPool.logOn = on
+	verifPool.mu.Unlock()
+}
+
+// VerifPoolEvents returns the event log since the last reset.
+func VerifPoolEvents() []VerifPoolEvent {
+	verifPool.mu.Lock()
+	defer verifPool.mu.Unlock()
+	return append([]VerifPoolEvent(nil), verifPool.log...)
+}
+
+// VerifPoolGet / VerifPoolPut are defaultBufferPool.Get / Put for harness-driven sequences.
+func VerifPoolGet() []byte         { return defaultBufferPool.Get() }
+func VerifPoolPut(buf []byte) error { return defaultBufferPool.Put(buf) }
